@@ -861,6 +861,49 @@ func (s *sim) runConcurrent(src *simkit.Source) {
 			break
 		}
 	}
+	// Settling pass: after the concurrent burst the object must still behave by
+	// the statement. The list is replaced and every endpoint reported serially,
+	// all timers drain, then Current() is the highest-priority available
+	// endpoint (if any) - whatever interleaving the burst took.
+	if !s.stop {
+		r := uint64(len(p.Ops))*2654435761 + uint64(p.RMs)*97 + uint64(p.DMs)
+		final := names(p.Init)
+		if len(lists) > 0 {
+			final = lists[int(r%uint64(len(lists)))]
+		}
+		var err error
+		s.call("SetEndpoints", func() { err = s.me.SetEndpoints(append([]string{}, final...)) })
+		if !s.stop && err != nil {
+			s.vio("C13", "valid-list-rejected", "settle", fmt.Sprintf("SetEndpoints(%v) = %v", final, err))
+		}
+		top := ""
+		for i, e := range final {
+			up := (r>>(uint(i)+3))&1 == 1
+			if s.stop {
+				break
+			}
+			e := e
+			s.call("SetEndpointAvailability", func() { s.me.SetEndpointAvailability(e, up) })
+			if up && top == "" {
+				top = e
+			}
+		}
+		for i := 0; i < 20 && !s.stop && s.k.PendingOneShot() > 0; i++ {
+			s.k.Advance(time.Duration(p.RMs+p.DMs+1) * time.Millisecond)
+			s.kernelFailure()
+		}
+		if !s.stop {
+			x := s.current()
+			switch {
+			case s.stop:
+			case idx(final, x) < 0:
+				s.vio("C13", "current-not-in-list", "settle", fmt.Sprintf("after the concurrent burst and a serial settling pass Current()=%q, list %v", x, final))
+			case top != "" && x != top:
+				s.vio("C14", "no-convergence", "settle", fmt.Sprintf("after the concurrent burst, a serial settling pass and all timers, Current()=%q but the highest-priority available endpoint is %q (list %v)", x, top, final))
+			}
+			s.res.Count("probe:concurrent_settle_checked", 1)
+		}
+	}
 	s.res.Count("op:concurrent_run", 1)
 }
 
